@@ -29,7 +29,7 @@ func c18Src(c *C18Case) string { return c.Src }
 var c18Vocab = []string{"script", "raw", "text", "movement", "mart", "mapscripts", "format", "var", "flag", "defeated", "TRUE", "false", "if", "else", "elif", "do", "while", "break", "continue", "switch", "case", "default", "global", "local", "poryswitch", "const", "value", "moves",
 	"(", ")", "{", "}", "[", "]", ",", ":", "*", "=", "==", "!=", "<", "<=", ">", ">=", "&&", "||", "!",
 	"A", "B", "V", "_", "foo", "random", "specialvar", "msgbox", "end", "return", "goto", "step_end", "ITEM_NONE", "fontId", "maxLineLength", "numLines", "cursorOverlapWidth",
-	"0", "1", "2", "-1", "0x10", "9999", "10000", "99999999999999999999", `"txt"`, `"a b c d e f"`, `ascii"x"`, `"TEST"`, `"1_latin_rse"`, `"bogus"`, "`raw`", "`", `"`, "#c\n", "//c\n", "\n", "\r\n", "&", "|", "€", "\x00", "\ufffd", "\ufeff", "S_1", "S_Text_0", "S_Movement_0"}
+	"0", "1", "2", "-1", "0x10", "9999", "10000", "99999999999999999999", "３", "٣٤", "-٣", "0x", "value()", "var()", "flag()", "moves()", "format()", "defeated()", `"txt"`, `"a b c d e f"`, `ascii"x"`, `"TEST"`, `"1_latin_rse"`, `"bogus"`, "`raw`", "`", `"`, "#c\n", "//c\n", "\n", "\r\n", "&", "|", "€", "\x00", "\ufffd", "\ufeff", "S_1", "S_Text_0", "S_Movement_0"}
 
 const c18Header = "script S {\n"
 
@@ -203,7 +203,7 @@ func genMutant(t *rapid.T) string {
 	nm := rapid.IntRange(1, 3).Draw(t, "nmut")
 	for m := 0; m < nm && len(f2) > 1; m++ {
 		i := rapid.IntRange(0, len(f2)-1).Draw(t, "pos")
-		switch rapid.IntRange(0, 5).Draw(t, "mut") {
+		switch rapid.IntRange(0, 6).Draw(t, "mut") {
 		case 0:
 			f2 = append(f2[:i], f2[i+1:]...)
 		case 1:
@@ -217,6 +217,35 @@ func genMutant(t *rapid.T) string {
 			f2 = f2[:i]
 		case 5:
 			f2 = append(f2[:i], append([]string{rapid.SampledFrom(c18Vocab).Draw(t, "ins")}, f2[i:]...)...)
+		case 6:
+			// empty a bracket group: delete everything between an opening bracket and its partner
+			open := -1
+			for k := i; k < len(f2); k++ {
+				if f2[k] == "(" || f2[k] == "{" || f2[k] == "[" {
+					open = k
+					break
+				}
+			}
+			if open >= 0 {
+				depth, closeAt := 0, -1
+				for k := open; k < len(f2); k++ {
+					switch f2[k] {
+					case "(", "{", "[":
+						depth++
+					case ")", "}", "]":
+						depth--
+						if depth == 0 && closeAt < 0 {
+							closeAt = k
+						}
+					}
+					if closeAt >= 0 {
+						break
+					}
+				}
+				if closeAt > open+1 {
+					f2 = append(f2[:open+1], f2[closeAt:]...)
+				}
+			}
 		}
 	}
 	s := strings.Join(f2, rapid.SampledFrom([]string{" ", " ", "\n"}).Draw(t, "sep"))
@@ -230,7 +259,7 @@ func genMutant(t *rapid.T) string {
 	return s
 }
 
-var hostile = []string{"\x00", "\ufffd", "\ufeff", `"`, "`", "\\", "\r", "\n", "\t", "{", "}", "(", ")", "0x", "-", "*", "script", "text T { \"", "format(", "poryswitch(V){", "switch(var(A)){case ", "if(", "moves(", "raw `", "mapscripts M { A [", "const C = ", " ", "\U0001F600", "é"}
+var hostile = []string{"３", "٣", "value()", "var(A) == value()", "flag()", "moves()", "format()", "poryswitch(V){}", "switch(var(A)){}", "text T {}", "mapscripts M { A [ ] }", "mapscripts M { A [ , : ] }", "movement M { x * }", "const C =", "A(global)", "()", "{}", "[]", "\x00", "\ufffd", "\ufeff", `"`, "`", "\\", "\r", "\n", "\t", "{", "}", "(", ")", "0x", "-", "*", "script", "text T { \"", "format(", "poryswitch(V){", "switch(var(A)){case ", "if(", "moves(", "raw `", "mapscripts M { A [", "const C = ", " ", "\U0001F600", "é"}
 
 func genHostile(t *rapid.T) string {
 	switch rapid.IntRange(0, 6).Draw(t, "hk") {
@@ -352,7 +381,7 @@ func corpus() []string {
 
 func init() { register("C18", "TestC18_Robust", checkC18, c18Src) }
 
-const c18Rule = "inputs: token soup over a 110-word vocabulary (incl. NUL, U+FFFD, BOM, lone quotes/backticks, names imitating generated labels); valid generated whole files mutated by deleting/duplicating/swapping/replacing/inserting tokens and truncation at tokens and bytes; every string literal of the pinned tests and README code block (also truncated); hostile shapes (parentheses and blocks nested up to 300 deep, 400-fold repetitions, boundary multipliers, arbitrary unicode); 16384 option combinations (optimize, line markers, path, switches, font config present/absent/garbage/custom/hostile numbers/missing default/empty, default font, line length, command config). oracle: no panic, token budget not exceeded, error is a ParseError with 1<=start<=end<=lines, same in lint mode, lint accepts what normal accepts. non-trivial = accepted, or the error is located beyond the first token; distinct by (input, flags)"
+const c18Rule = "inputs: token soup over a 110-word vocabulary (incl. NUL, U+FFFD, BOM, lone quotes/backticks, names imitating generated labels); valid generated whole files mutated by deleting/duplicating/swapping/replacing/inserting tokens, emptying bracket groups and truncation at tokens and bytes; every string literal of the pinned tests and README code block (also truncated); hostile shapes (parentheses and blocks nested up to 300 deep, 400-fold repetitions, boundary multipliers, arbitrary unicode); 16384 option combinations (optimize, line markers, path, switches, font config present/absent/garbage/custom/hostile numbers/missing default/empty, default font, line length, command config). oracle: no panic, token budget not exceeded, error is a ParseError with 1<=start<=end<=lines, same in lint mode, lint accepts what normal accepts. non-trivial = accepted, or the error is located beyond the first token; distinct by (input, flags)"
 
 func TestC18_Regress(t *testing.T) { runRegress(t, "C18") }
 
